@@ -11,7 +11,7 @@
 From Coq Require Import List NArith.
 From Minimq Require Import Bytes Varint Utf8 Props Ser De Reader Arena Core Machine.
 From Minimq Require Import Status Progress WireInv Wire Measure Wire Terminate Run.
-From Minimq Require Import Varint De ArenaOps ConnectOk ReaderInv Framing FillWhole PollReads Liveness Healthy.
+From Minimq Require Import Varint De ArenaOps ConnectOk ReaderInv Framing FillWhole PollReads Liveness PingQuiet Healthy.
 Import ListNotations.
 Open Scope N_scope.
 
@@ -205,6 +205,16 @@ Theorem C16_drive_writes_owed : forall fuel adv w w' pr, Hd w -> NA w -> drive_l
   w_wire w' = w_wire w ++ owed (s_ob (w_sess w)).
 Proof. exact drive_loop_wire. Qed.
 
+From Minimq Require Import Sends PingAt.
+
+(* the same with no assumption on the keep-alive timer: a PINGREQ that falls due joins the queue before the first step (`s1`),
+   and drive() sends everything, PINGREQ included *)
+Theorem C16_drive_sends_all_any_timer : forall fuel w s1,
+  Hc w -> NA w -> maybe_queue_pingreq (w_sess w) (w_now w) = (s1, None) -> M s1 < N.of_nat (S fuel) ->
+  exists w', op_drive (S fuel) w = (w', ODone None) /\ next_step (s_ob (w_sess w')) = None /\ Hd w' /\ NA w' /\
+    w_now w' = w_now w /\ w_wire w' = w_wire w ++ owed (s_ob s1).
+Proof. exact drive_sends_all_any. Qed.
+
 Print Assumptions C16_poll_never_returns_idle.
 Print Assumptions C16_sent_entries_not_resent.
 Print Assumptions C16_write_step_advances.
@@ -231,3 +241,4 @@ Print Assumptions C16_drained_all_sent.
 Print Assumptions C16_healthy_example.
 Print Assumptions C16_poll_sends_all.
 Print Assumptions C16_drive_writes_owed.
+Print Assumptions C16_drive_sends_all_any_timer.
